@@ -395,6 +395,13 @@ func (c *Client) Connect(ctx context.Context, t Transport, opts *ClientSessionOp
 		_ = cs.Close()
 		return nil, unsupportedProtocolVersionError{res.ProtocolVersion}
 	}
+	if res.ProtocolVersion >= protocolVersion20260728 {
+		// The initialize handshake cannot settle on a version that has no
+		// handshake: a server that answers with one is refused (such versions
+		// are negotiated through server/discover, on transports that carry them).
+		_ = cs.Close()
+		return nil, unsupportedProtocolVersionError{res.ProtocolVersion}
+	}
 	cs.state.InitializeResult = res
 	if hc, ok := cs.mcpConn.(clientConnection); ok {
 		hc.sessionUpdated(cs.state)
